@@ -236,7 +236,7 @@ void c15_chain(vf::Tape & t, vf::Ctx & ctx)
   static const int lens[] = {1000, 10000, 100000};
   const char * tier = std::getenv("VERIF_TIER");
   const bool thorough = tier && std::string(tier) == "thorough";
-  const int n   = thorough ? lens[t.choice(3)] : 1000;
+  const int n   = thorough ? lens[t.choice(3)] : (t.choice(8) == 7 ? 10000 : 1000);  // norm drift shows as n^2: ratio ~1 at 1e3, ~10 at 1e4
   const int kind = static_cast<int>(t.choice(4));
   G x    = start_elem<G>(t, ctx);
   MatL X = refM(x);
